@@ -160,6 +160,8 @@ var c05Fixed = [][]string{
 	{`func eqs(x, y) { [x == y, y == x, 3 == x, x == 3, x != y, 2 != y] }`, `println(eqs(3, 3), eqs(3, 2))`},
 	{`func todds(n) { out = []; for k = n { if k % 2 == 1 { k = k * 3 }; out = out + k }; out }`, `println(todds(6))`},
 	{`func isq(n) { for i = n { if i * i > n { break }; i } }`, `println(isq(10), isq(17), isq(2))`, `func xcf() { for i = 5 { if i > 2 { continue }; i } }`, `println(xcf())`},
+	{`func alr(a) { a + (a = 5) }`, `println(alr(3))`, `func alr2(a, b) { [a * (a = b), a - (a = a + 1) - a] }`, `println(alr2(3, 4))`},
+	{`println((() => { (for i = 5 { if i == 3 { return i } }) + (for j = 2 { j }) })())`},
 	{`func cmp3(x) { t = 0; for i = 4 { if 2 == i { t = t + 10 }; if i == x { t = t + 1 }; if x == i { t = t + 100 } }; t }`, `println(cmp3(2), cmp3(7))`},
 }
 
